@@ -148,7 +148,7 @@ func (h *c20Ctl) dump() string {
 		ks = append(ks, k+"="+v)
 	}
 	sort.Strings(ks)
-	return h.c.ips.VerifDump() + "statuses " + strings.Join(ks, ";")
+	return h.c.ips.VerifContent() + "statuses " + strings.Join(ks, ";")
 }
 
 func c20Scenarios() []c20Scenario {
